@@ -89,3 +89,18 @@ def resolve(v):
 def build_ctx(ctx):
     """{"name": json-or-"@helper:x"} -> the real keyword arguments for render()"""
     return {k: resolve(v) for k, v in ctx.items()}
+
+
+class _Default:
+    """an object handed to the template to be used as the explicit default of context.get(name, dfl)"""
+
+    def __repr__(self):
+        return "DEFAULT"
+
+
+DEFAULT = _Default()
+
+
+def tagf(p):
+    """filter factory: ${'v' | tagf(a), tagf(b)} -> 'b(a(v))'"""
+    return lambda s: p + "(" + s + ")"
